@@ -142,6 +142,8 @@ type Method struct {
 	Meta  [][]string        `json:"meta,omitempty"`
 	// Stream: "" | payload (client streaming) | result (server streaming) | both
 	Stream string `json:"stream,omitempty"`
+	// SkipRequestBody: the HTTP request body is handed to the service as an io.ReadCloser (SkipRequestBodyEncodeDecode)
+	SkipRequestBody bool `json:"skip_request_body,omitempty"`
 }
 
 // Mapped is "attribute[:wire name]".
